@@ -408,11 +408,20 @@ def run(chk):
             font[tag]
         chk.case(key=tuple(order), nontrivial=order != GLYPHS)
         chk.traces_validated += 1
-        replay = {"new_order": order}
+        # Reorder.tla's MeaningAction speaks about every step of a sequence of permutations: a third of the cases
+        # permute the SAME font object two or three times (saving in between), ending in `order`
+        chain = [order]
+        if k % 3 == 0:
+            for _ in range(1 + k % 2):
+                p = list(rest)
+                r.shuffle(p)
+                chain.insert(0, [".notdef"] + p)
+        replay = {"new_order": order, "successive_orders_on_one_font_object": chain}
         try:
-            reorder_glyphs.reorder_glyphs(font, order)
-            buf = io.BytesIO()
-            font.save(buf)
+            for step in chain:
+                reorder_glyphs.reorder_glyphs(font, step)
+                buf = io.BytesIO()
+                font.save(buf)
             again = TTFont(io.BytesIO(buf.getvalue()), lazy=False)
         except Exception as e:
             chk.violation(f"reorder_glyphs/save fails for {order}: {type(e).__name__}: {str(e)[:160]}", replay)
